@@ -113,9 +113,12 @@ Lemma plan_single_safe S fs tens sc :
 Proof.
   intros Hd Hf Hdest. unfold plan_single. simpl.
   repeat (apply andb_true_intro; split); try reflexivity.
-  - unfold plan_pre. simpl. rewrite forallb_app. apply andb_true_intro. split.
+  - unfold plan_pre. simpl. rewrite !forallb_app. apply andb_true_intro. split.
     + destruct (is_link fs (sc_req sc)); reflexivity.
-    + simpl. rewrite Hd. simpl. apply forallb_map_const. intros h. destruct (has_nul (tpath tens h)); reflexivity.
+    + apply andb_true_intro. split.
+      * apply forallb_map_const. intros h. unfold probe_act.
+        destruct (has_nul (tpath tens h)); [reflexivity|]. destruct (is_alias fs sc (tpath tens h)); reflexivity.
+      * simpl. rewrite Hd. reflexivity.
   - rewrite Hf. reflexivity.
   - eapply forallb_impl; [apply nofs_safe | apply tensors_nofs].
   - unfold plan_tail. rewrite forallb_app. apply andb_true_intro. split.
@@ -125,7 +128,8 @@ Proof.
       * simpl. rewrite Hf, Hdest. reflexivity.
   - rewrite Hf. reflexivity.
   - rewrite Hd. reflexivity.
-  - apply forallb_map_const. reflexivity.
+  - unfold plan_post. simpl. induction (overwritten fs tens sc) as [|h r IH]; simpl; [reflexivity|].
+    destruct (realpath_is_dest fs tens sc h); simpl; exact IH.
 Qed.
 
 (* ---- sharded save: nothing that existed before is changed, whatever the interruption *)
